@@ -7,12 +7,17 @@ import (
 	"fmt"
 	"image"
 	"image/png"
+	"math"
 	"math/rand"
+	"os"
+	"path/filepath"
 	"sort"
 	"strings"
 	"sync"
 	"sync/atomic"
 	"time"
+
+	"github.com/janelia-flyem/dvid/dvid"
 
 	"verifharness/internal/ev"
 	"verifharness/internal/node"
@@ -26,6 +31,10 @@ import (
 //   part A  ImageVol_mc:    TLC explores every request sequence within the bounds, checks the
 //                           claims and prints every maximal behaviour with the projection of
 //                           its final state; the harness replays them on the real code.
+//                           Three configurations: A1 aligned writes on 2x2x1 blocks; A2 one write,
+//                           one change of a region of interest and one POST extents in every order
+//                           on 2x1x1 blocks (incl. a region of another block size); A3/A4 one file
+//                           load (unaligned slab of XY images) and one aligned write on 2x1x1 / 1x1x2.
 //   part B  ImageVol_cases: seeded longer request sequences on a larger lattice; TLC checks
 //                           the claims along each and evaluates the final state (oracle).
 //   part C  (exploration)   Voxels.ReadBlock / WriteBlock called directly over swept
@@ -41,21 +50,26 @@ type ivBox struct {
 }
 
 type ivOp struct {
-	Op     string `json:"op"`
+	Op     string `json:"op"` // write | load | newver | setroi | setext
 	V      int    `json:"v"`
 	API    string `json:"api,omitempty"`
 	Mutate bool   `json:"mutate,omitempty"`
-	Box    *ivBox `json:"box,omitempty"`
+	Box    *ivBox `json:"box,omitempty"` // write: block box; setext: cell box
 	Roi    int    `json:"roi,omitempty"`
+	CBox   *ivBox `json:"cbox,omitempty"`   // load: cell box (cells = half blocks)
+	Blocks []int  `json:"blocks,omitempty"` // setroi: the new block set (empty = DELETE roi)
 }
 
 type ivFin struct {
-	Nver int         `json:"nver"`
-	Par  []int       `json:"par"`
-	Open []bool      `json:"open"`
-	Vol  [][]int     `json:"vol"`  // [version-1][block id-1] = write id, 0 = unwritten
-	Ext  [][2][3]int `json:"ext"`  // intended extents (block box), lo > hi = none
-	Hull [][2][3]int `json:"hull"` // hull of the written blocks, lo > hi = none
+	Nver   int         `json:"nver"`
+	Par    []int       `json:"par"`
+	Open   []bool      `json:"open"`
+	Vol    [][]int     `json:"vol"`    // [version-1][block id-1] = aligned write id, 0 = none
+	CVol   [][][]int   `json:"cvol"`   // [version-1][region, 0 = none][cell id-1] = write id read there, 0 = background
+	Stored [][]int     `json:"stored"` // [version-1][block id-1] = 1 if the block is stored
+	Roi    [][][]int   `json:"roi"`    // [version-1][region-1] = block ids
+	Ext    [][2][3]int `json:"ext"`    // advertised extents (cell box), lo > hi = none
+	Hull   [][2][3]int `json:"hull"`   // hull of the written cells, lo > hi = none
 }
 
 type ivBeh struct {
@@ -64,8 +78,34 @@ type ivBeh struct {
 }
 
 type ivLattice struct {
-	NB   [3]int  `json:"nb"`
-	Rois [][]int `json:"rois"` // block ids per ROI
+	NB      [3]int  `json:"nb"`
+	Rois    [][]int `json:"rois"`              // block ids per ROI (at the root version)
+	Alts    [][]int `json:"roi_alternatives"`  // block sets a ROI is changed to by setroi
+	Foreign []int   `json:"rois_of_other_block_size,omitempty"`
+}
+
+// ivBounds are the bounds of one TLC configuration.
+type ivBounds struct {
+	MaxVer, MaxWrites, MaxRoiOps, MaxExtOps, MaxLoads int
+}
+
+func (l ivLattice) isForeign(r int) bool {
+	for _, f := range l.Foreign {
+		if f == r {
+			return true
+		}
+	}
+	return false
+}
+
+// cid is the cell id of lattice-relative cell coordinates (0 = outside the lattice).
+func (l ivLattice) cid(c [3]int) int {
+	for a := 0; a < 3; a++ {
+		if c[a] < 0 || c[a] >= 2*l.NB[a] {
+			return 0
+		}
+	}
+	return 1 + c[0] + 2*l.NB[0]*(c[1]+2*l.NB[1]*c[2])
 }
 
 func (l ivLattice) nblocks() int { return l.NB[0] * l.NB[1] * l.NB[2] }
@@ -80,28 +120,37 @@ func (l ivLattice) bc(b int) [3]int {
 	return [3]int{b % l.NB[0], (b / l.NB[0]) % l.NB[1], b / (l.NB[0] * l.NB[1])}
 }
 
-func (l ivLattice) roisTLA() string {
+func ivIntSet(ids []int) string {
+	var s []string
+	for _, b := range ids {
+		s = append(s, fmt.Sprint(b))
+	}
+	return "{" + strings.Join(s, ", ") + "}"
+}
+
+func ivSetSeq(sets [][]int) string {
 	var parts []string
-	for _, r := range l.Rois {
-		var ids []string
-		for _, b := range r {
-			ids = append(ids, fmt.Sprint(b))
-		}
-		parts = append(parts, "{"+strings.Join(ids, ", ")+"}")
+	for _, r := range sets {
+		parts = append(parts, ivIntSet(r))
 	}
 	return "<< " + strings.Join(parts, ", ") + " >>"
 }
 
-func (l ivLattice) cfg(maxVer, maxWrites int, rest string) string {
-	return fmt.Sprintf("SPECIFICATION Spec\nCONSTANTS\n  NBX = %d\n  NBY = %d\n  NBZ = %d\n  MaxVersions = %d\n  MaxWrites = %d\n  Rois <- RoisDef\n%s\nCHECK_DEADLOCK FALSE\n",
-		l.NB[0], l.NB[1], l.NB[2], maxVer, maxWrites, rest)
+// defsTLA are the definitions the generated constant module carries for the lattice.
+func (l ivLattice) defsTLA() string {
+	return fmt.Sprintf("RoisDef == %s\nRoiAltsDef == %s\nRoiForeignDef == %s\n", ivSetSeq(l.Rois), ivSetSeq(l.Alts), ivIntSet(l.Foreign))
 }
 
-// ivExplore runs part A in TLC.
-func ivExplore(c *Ctx, lat ivLattice, maxVer, maxWrites int) (behs []*ivBeh, classes [3][][2]int, r *tlc.Result) {
-	gen := fmt.Sprintf("---- MODULE ImageVolGen ----\nRoisDef == %s\nEmitOn == TRUE\n====\n", lat.roisTLA())
-	cfg := lat.cfg(maxVer, maxWrites, "INVARIANTS Inv_C17_State Inv_C17_RunAgrees Emit\nPROPERTIES Act_C17_Step")
-	r = c.MustModelCheck(tlc.Opts{Module: "ImageVol_mc", Config: "gen_iv.cfg",
+func (l ivLattice) cfg(b ivBounds, rest string) string {
+	return fmt.Sprintf("SPECIFICATION Spec\nCONSTANTS\n  NBX = %d\n  NBY = %d\n  NBZ = %d\n  MaxVersions = %d\n  MaxWrites = %d\n  Rois <- RoisDef\n  RoiAlts <- RoiAltsDef\n  RoiForeign <- RoiForeignDef\n  MaxRoiOps = %d\n  MaxExtOps = %d\n  MaxLoads = %d\n%s\nCHECK_DEADLOCK FALSE\n",
+		l.NB[0], l.NB[1], l.NB[2], b.MaxVer, b.MaxWrites, b.MaxRoiOps, b.MaxExtOps, b.MaxLoads, rest)
+}
+
+// ivExplore runs one configuration of part A in TLC.
+func ivExplore(c *Ctx, lat ivLattice, b ivBounds) (behs []*ivBeh, classes [3][][2]int, r *tlc.Result) {
+	gen := fmt.Sprintf("---- MODULE ImageVolGen ----\n%sEmitOn == TRUE\n====\n", lat.defsTLA())
+	cfg := lat.cfg(b, "INVARIANTS Inv_C17_State Inv_C17_RunAgrees Emit\nPROPERTIES Act_C17_Step")
+	r = c.MustModelCheck(tlc.Opts{Module: "ImageVol_mc", Config: "gen_iv.cfg", HeapGB: 3,
 		Files:   map[string][]byte{"ImageVolGen.tla": []byte(gen), "gen_iv.cfg": []byte(cfg)},
 		Timeout: 15 * time.Minute})
 	gotClasses := false
@@ -128,9 +177,20 @@ func ivExplore(c *Ctx, lat ivLattice, maxVer, maxWrites int) (behs []*ivBeh, cla
 	return
 }
 
+func ivBoxTLA(b *ivBox) string {
+	return fmt.Sprintf("[lo |-> <<%d, %d, %d>>, hi |-> <<%d, %d, %d>>]", b.Lo[0], b.Lo[1], b.Lo[2], b.Hi[0], b.Hi[1], b.Hi[2])
+}
+
 func ivOpTLA(o ivOp) string {
-	if o.Op == "newver" {
+	switch o.Op {
+	case "newver":
 		return fmt.Sprintf(`[op |-> "newver", v |-> %d]`, o.V)
+	case "load":
+		return fmt.Sprintf(`[op |-> "load", v |-> %d, cbox |-> %s]`, o.V, ivBoxTLA(o.CBox))
+	case "setroi":
+		return fmt.Sprintf(`[op |-> "setroi", v |-> %d, roi |-> %d, blocks |-> %s]`, o.V, o.Roi, ivIntSet(o.Blocks))
+	case "setext":
+		return fmt.Sprintf(`[op |-> "setext", v |-> %d, box |-> %s]`, o.V, ivBoxTLA(o.Box))
 	}
 	m := "FALSE"
 	if o.Mutate {
@@ -161,9 +221,9 @@ func ivClasses(r *tlc.Result) (classes [3][][2]int) {
 }
 
 // ivEvalCases runs part B in TLC: claims along every sequence + final projections.
-func ivEvalCases(c *Ctx, lat ivLattice, maxVer, maxWrites int, cases [][]ivOp) ([]*ivBeh, *tlc.Result) {
+func ivEvalCases(c *Ctx, lat ivLattice, b ivBounds, cases [][]ivOp) ([]*ivBeh, *tlc.Result) {
 	var sb strings.Builder
-	fmt.Fprintf(&sb, "---- MODULE ImageVolCases ----\nRoisDef == %s\nCases == <<\n", lat.roisTLA())
+	fmt.Fprintf(&sb, "---- MODULE ImageVolCases ----\nEXTENDS Integers\n%sCases == <<\n", lat.defsTLA())
 	for i, cs := range cases {
 		if i > 0 {
 			sb.WriteString(",\n")
@@ -175,8 +235,8 @@ func ivEvalCases(c *Ctx, lat ivLattice, maxVer, maxWrites int, cases [][]ivOp) (
 		sb.WriteString(" << " + strings.Join(ops, ",\n    ") + " >>")
 	}
 	sb.WriteString("\n>>\n====\n")
-	cfg := lat.cfg(maxVer, maxWrites, "INVARIANTS AllClaims EmitCases")
-	r := c.MustModelCheck(tlc.Opts{Module: "ImageVol_cases", Config: "gen_ivc.cfg", Workers: 1,
+	cfg := lat.cfg(b, "INVARIANTS AllClaims EmitCases")
+	r := c.MustModelCheck(tlc.Opts{Module: "ImageVol_cases", Config: "gen_ivc.cfg", Workers: 1, HeapGB: 3,
 		Files:   map[string][]byte{"ImageVolCases.tla": []byte(sb.String()), "gen_ivc.cfg": []byte(cfg)},
 		Timeout: 15 * time.Minute, Xss: "256m"})
 	var out []*ivBeh
@@ -211,6 +271,11 @@ type ivBind struct {
 	Origin [3]int `json:"origin_block"` // DVID block coordinate of lattice block (0,0,0)
 	BG     byte   `json:"background"`
 	Seed   uint64 `json:"value_seed"`
+	Comp   string `json:"compression,omitempty"` // instance setting Compression ("" = default lz4)
+	Csum   string `json:"checksum,omitempty"`    // instance setting Checksum ("" = default)
+	ExtCfg bool   `json:"minmax_config,omitempty"`
+	RoiBS  [3]int `json:"block_size_of_foreign_roi"`
+	Spans  int    `json:"roi_span_style"` // 0 one span per block, 1 maximal runs along X, 2 runs + redundant single-block spans
 }
 
 func ivMix(h uint64) uint64 {
@@ -220,8 +285,29 @@ func ivMix(h uint64) uint64 {
 	return h ^ (h >> 31)
 }
 
+// bgVoxel writes the bytes of the background voxel: every element of the voxel holds the
+// configured Background integer in the element's own type (little endian, as voxels are stored).
+func (b *ivBind) bgVoxel(dst []byte) {
+	for i := range dst {
+		dst[i] = 0
+	}
+	if b.BG == 0 {
+		return
+	}
+	switch b.Type {
+	case "uint8blk", "uint16blk", "uint32blk", "uint64blk":
+		dst[0] = b.BG
+	case "float32blk":
+		binary.LittleEndian.PutUint32(dst, math.Float32bits(float32(b.BG)))
+	case "rgba8blk":
+		for i := range dst {
+			dst[i] = b.BG
+		}
+	}
+}
+
 // ivVoxel is the fixed refinement f(write id, x, y, z): the bytes of one voxel.  The first
-// byte always differs from the background so that a written voxel never looks unwritten.
+// byte always differs from the background's so that a written voxel never looks unwritten.
 func (b *ivBind) ivVoxel(dst []byte, w int, x, y, z int) {
 	h := ivMix(b.Seed + uint64(w)*0x100000001B3)
 	h = ivMix(h ^ uint64(uint32(int32(x))))
@@ -230,8 +316,10 @@ func (b *ivBind) ivVoxel(dst []byte, w int, x, y, z int) {
 	for i := range dst {
 		dst[i] = byte(h >> (8 * uint(i)))
 	}
-	if dst[0] == b.BG {
-		dst[0] = b.BG ^ 0x5A
+	var bg [8]byte
+	b.bgVoxel(bg[:len(dst)])
+	if dst[0] == bg[0] {
+		dst[0] = bg[0] ^ 0x5A
 	}
 }
 
@@ -243,31 +331,31 @@ func floorDiv(a, b int) int {
 	return q
 }
 
-// expectVoxel writes the expected bytes of voxel (x,y,z) at version v (1-based).
-func (b *ivBind) expectVoxel(dst []byte, lat ivLattice, fin *ivFin, v int, x, y, z int) {
-	id := lat.bid(floorDiv(x, b.BS[0])-b.Origin[0], floorDiv(y, b.BS[1])-b.Origin[1], floorDiv(z, b.BS[2])-b.Origin[2])
-	if id != 0 {
-		if w := fin.Vol[v-1][id-1]; w != 0 {
+// expectVoxel writes the expected bytes of voxel (x,y,z) given the cell map of the
+// specification (cell id -> write id read there, 0 = background).
+func (b *ivBind) expectVoxel(dst []byte, lat ivLattice, cmap []int, x, y, z int) {
+	p := [3]int{x, y, z}
+	var c [3]int
+	for a := 0; a < 3; a++ {
+		c[a] = floorDiv(p[a]-b.Origin[a]*b.BS[a], b.BS[a]/2)
+	}
+	if id := lat.cid(c); id != 0 {
+		if w := cmap[id-1]; w != 0 {
 			b.ivVoxel(dst, w, x, y, z)
 			return
 		}
 	}
-	for i := range dst {
-		dst[i] = 0
-	}
-	if b.BPV == 1 {
-		dst[0] = b.BG
-	}
+	b.bgVoxel(dst)
 }
 
 // expectBox fills the expected bytes of the voxel box [off, off+size) in x-fastest order.
-func (b *ivBind) expectBox(lat ivLattice, fin *ivFin, v int, off, size [3]int) []byte {
+func (b *ivBind) expectBox(lat ivLattice, cmap []int, off, size [3]int) []byte {
 	out := make([]byte, size[0]*size[1]*size[2]*b.BPV)
 	i := 0
 	for z := 0; z < size[2]; z++ {
 		for y := 0; y < size[1]; y++ {
 			for x := 0; x < size[0]; x++ {
-				b.expectVoxel(out[i:i+b.BPV], lat, fin, v, off[0]+x, off[1]+y, off[2]+z)
+				b.expectVoxel(out[i:i+b.BPV], lat, cmap, off[0]+x, off[1]+y, off[2]+z)
 				i += b.BPV
 			}
 		}
@@ -290,7 +378,23 @@ func (b *ivBind) writeData(w int, off, size [3]int) []byte {
 	return out
 }
 
+// sliceImage is the XY image of write number w at depth z: the voxel bytes are the pixel bytes.
+func (b *ivBind) sliceImage(w int, off, size [3]int, z int) image.Image {
+	pix := b.writeData(w, [3]int{off[0], off[1], z}, [3]int{size[0], size[1], 1})
+	r := image.Rect(0, 0, size[0], size[1])
+	switch b.BPV {
+	case 1:
+		return &image.Gray{Pix: pix, Stride: size[0], Rect: r}
+	case 2:
+		return &image.Gray16{Pix: pix, Stride: 2 * size[0], Rect: r}
+	case 4:
+		return &image.NRGBA{Pix: pix, Stride: 4 * size[0], Rect: r}
+	}
+	return &image.NRGBA64{Pix: pix, Stride: 8 * size[0], Rect: r}
+}
 type ivDivergence struct {
+	ReadSeed int64       `json:"read_seed"`
+	NReads   int         `json:"class_reads_per_version"`
 	Kind     string      `json:"kind"`
 	Part     string      `json:"part"`
 	Lattice  ivLattice   `json:"lattice"`
@@ -426,6 +530,8 @@ type ivSession struct {
 	script  []string
 	nreads  int // class reads per version and shape
 	record  bool
+	hasExt  bool // the behaviour posts extents
+	seed    int64
 }
 
 func (s *ivSession) http(method, url string, body []byte) node.Resp {
@@ -446,7 +552,7 @@ func (s *ivSession) http(method, url string, body []byte) node.Resp {
 }
 
 func (s *ivSession) div(kind string, v int, req, detail string, want, got interface{}) *ivDivergence {
-	return &ivDivergence{Kind: kind, Part: s.part, Lattice: s.lat, Bind: s.bind, Hist: s.beh.Hist, Version: v,
+	return &ivDivergence{ReadSeed: s.seed, NReads: s.nreads, Kind: kind, Part: s.part, Lattice: s.lat, Bind: s.bind, Hist: s.beh.Hist, Version: v,
 		Request: req, Detail: detail, Expected: want, Observed: got, Final: &s.beh.Fin, Script: s.script}
 }
 
@@ -461,6 +567,60 @@ func (s *ivSession) boxVoxels(b *ivBox) (off, size [3]int) {
 	return
 }
 
+// voxel box of a cell box (cells have half a block edge)
+func (s *ivSession) cellBoxVoxels(b *ivBox) (lo, hi [3]int) {
+	for a := 0; a < 3; a++ {
+		half := s.bind.BS[a] / 2
+		base := s.bind.Origin[a] * s.bind.BS[a]
+		lo[a] = base + b.Lo[a]*half
+		hi[a] = base + (b.Hi[a]+1)*half - 1
+	}
+	return
+}
+
+// roiSpans turns a block set into the spans [z, y, x0, x1] (DVID block coordinates) posted to
+// the roi instance: one span per block, maximal runs along X (multi-block spans), or the runs
+// plus redundant single-block spans inside them (overlapping spans).
+func (s *ivSession) roiSpans(ids []int) [][4]int {
+	ids = append([]int(nil), ids...)
+	sort.Ints(ids) // by id = by (z, y, x)
+	org := s.bind.Origin
+	var spans [][4]int
+	for _, id := range ids {
+		bc := s.lat.bc(id)
+		x, y, z := org[0]+bc[0], org[1]+bc[1], org[2]+bc[2]
+		if n := len(spans); s.bind.Spans > 0 && n > 0 && spans[n-1][0] == z && spans[n-1][1] == y && spans[n-1][3] == x-1 {
+			spans[n-1][3] = x
+			continue
+		}
+		spans = append(spans, [4]int{z, y, x, x})
+	}
+	if s.bind.Spans == 2 {
+		for _, sp := range append([][4]int(nil), spans...) {
+			if sp[3] > sp[2] {
+				spans = append(spans, [4]int{sp[0], sp[1], sp[3], sp[3]})
+			}
+		}
+	}
+	return spans
+}
+
+func (s *ivSession) roiName(r int) string { return fmt.Sprintf("roi%d", r) }
+
+func (s *ivSession) postRoi(u string, r int, ids []int) {
+	url := "/api/node/" + u + "/" + s.roiName(r) + "/roi"
+	if len(ids) == 0 {
+		if rr := s.http("DELETE", url, nil); rr.Status != 200 {
+			infra("delete roi: %d %s", rr.Status, rr.Bytes())
+		}
+		return
+	}
+	body, _ := json.Marshal(s.roiSpans(ids))
+	if rr := s.http("POST", url, body); rr.Status != 200 {
+		infra("post roi: %d %s", rr.Status, rr.Bytes())
+	}
+}
+
 func (s *ivSession) setup() *ivDivergence {
 	r := s.http("POST", "/api/repos", []byte(`{"alias":"c17","description":"c17"}`))
 	var out struct{ Root string }
@@ -473,25 +633,32 @@ func (s *ivSession) setup() *ivDivergence {
 	if s.bind.BG != 0 {
 		cfg["Background"] = fmt.Sprint(s.bind.BG)
 	}
+	if s.bind.Comp != "" {
+		cfg["Compression"] = s.bind.Comp
+	}
+	if s.bind.Csum != "" {
+		cfg["Checksum"] = s.bind.Csum
+	}
+	if s.bind.ExtCfg {
+		// extents given at creation: one voxel somewhere inside the lattice
+		p := fmt.Sprintf("%d,%d,%d", s.bind.Origin[0]*s.bind.BS[0]+1, s.bind.Origin[1]*s.bind.BS[1]+1, s.bind.Origin[2]*s.bind.BS[2]+1)
+		cfg["MinPoint"], cfg["MaxPoint"] = p, p
+	}
 	body, _ := json.Marshal(cfg)
 	if r := s.http("POST", "/api/repo/"+out.Root+"/instance", body); r.Status != 200 {
 		infra("new %s instance: %d %s", s.bind.Type, r.Status, r.Bytes())
 	}
 	for i, roi := range s.lat.Rois {
-		name := fmt.Sprintf("roi%d", i+1)
-		body, _ := json.Marshal(map[string]string{"typename": "roi", "dataname": name, "BlockSize": bs})
+		rbs := bs
+		if s.lat.isForeign(i + 1) {
+			rbs = fmt.Sprintf("%d,%d,%d", s.bind.RoiBS[0], s.bind.RoiBS[1], s.bind.RoiBS[2])
+		}
+		body, _ := json.Marshal(map[string]string{"typename": "roi", "dataname": s.roiName(i + 1), "BlockSize": rbs})
 		if r := s.http("POST", "/api/repo/"+out.Root+"/instance", body); r.Status != 200 {
 			infra("new roi instance: %d %s", r.Status, r.Bytes())
 		}
-		// spans [z, y, x0, x1] in DVID block coordinates, one per block (sorted by z, y, x)
-		var spans [][4]int
-		for _, id := range roi {
-			bc := s.lat.bc(id)
-			spans = append(spans, [4]int{s.bind.Origin[2] + bc[2], s.bind.Origin[1] + bc[1], s.bind.Origin[0] + bc[0], s.bind.Origin[0] + bc[0]})
-		}
-		body, _ = json.Marshal(spans)
-		if r := s.http("POST", "/api/node/"+out.Root+"/"+name+"/roi", body); r.Status != 200 {
-			infra("post roi: %d %s", r.Status, r.Bytes())
+		if len(roi) > 0 {
+			s.postRoi(out.Root, i+1, roi)
 		}
 	}
 	return nil
@@ -526,6 +693,56 @@ func (s *ivSession) apply() *ivDivergence {
 			kids[o.V]++
 			s.uuids = append(s.uuids, out.Child)
 			open[len(s.uuids)] = true
+		case "setroi":
+			s.postRoi(s.uuids[o.V-1], o.Roi, o.Blocks)
+		case "setext":
+			s.hasExt = true
+			lo, hi := s.cellBoxVoxels(o.Box)
+			body, _ := json.Marshal(map[string][3]int{"MinPoint": lo, "MaxPoint": hi})
+			url := "/api/node/" + s.uuids[o.V-1] + "/img/extents"
+			if r := s.http("POST", url, body); r.Status != 200 {
+				return s.div("extents-refused", o.V, "POST "+url, fmt.Sprintf("request %d of the behaviour, body %s", i+1, body), 200, fmt.Sprintf("%d %s", r.Status, r.Bytes()))
+			}
+		case "load":
+			nw++
+			lo, hi := s.cellBoxVoxels(o.CBox)
+			size := [3]int{hi[0] - lo[0] + 1, hi[1] - lo[1] + 1, hi[2] - lo[2] + 1}
+			dir := filepath.Join(s.c.Scratch, fmt.Sprintf("ivload-%p-%d", s, nw))
+			if err := os.MkdirAll(dir, 0755); err != nil {
+				infra("mkdir %s: %v", dir, err)
+			}
+			var files []string
+			for z := 0; z < size[2]; z++ {
+				var buf bytes.Buffer
+				if err := png.Encode(&buf, s.bind.sliceImage(nw, lo, size, lo[2]+z)); err != nil {
+					infra("png encode: %v", err)
+				}
+				fn := filepath.Join(dir, fmt.Sprintf("s%05d.png", z))
+				if err := os.WriteFile(fn, buf.Bytes(), 0644); err != nil {
+					infra("write %s: %v", fn, err)
+				}
+				files = append(files, fn)
+			}
+			var res struct{ Err string }
+			req := fmt.Sprintf("call imageblk.load offset %v, %d XY images of %dx%d", lo, size[2], size[0], size[1])
+			err := s.n.Call("imageblk.load", map[string]interface{}{"data": "img", "uuid": s.uuids[o.V-1], "offset": lo, "files": files}, &res)
+			os.RemoveAll(dir)
+			atomic.AddInt64(&s.cnt.requests, 1)
+			if len(s.script) < 400 {
+				s.script = append(s.script, req)
+			}
+			if err == node.ErrDead {
+				panic(ivDied{s.div("server-died", o.V, req, "the server process died while loading the images", nil, s.n.StderrTail(1200))})
+			}
+			if err != nil {
+				if _, isCall := err.(*node.CallError); !isCall {
+					infra("imageblk.load: %v", err)
+				}
+				return s.div("load-failed", o.V, req, fmt.Sprintf("request %d of the behaviour", i+1), "loaded", err.Error())
+			}
+			if res.Err != "" {
+				return s.div("load-failed", o.V, req, fmt.Sprintf("request %d of the behaviour", i+1), "loaded", res.Err)
+			}
 		case "write":
 			nw++
 			off, size := s.boxVoxels(o.Box)
@@ -536,7 +753,7 @@ func (s *ivSession) apply() *ivDivergence {
 				url = "/api/node/" + u + "/img/raw/0_1_2/" + us(size) + "/" + us(off)
 				var q []string
 				if o.Roi != 0 {
-					q = append(q, fmt.Sprintf("roi=roi%d", o.Roi))
+					q = append(q, "roi="+s.roiName(o.Roi))
 				}
 				if o.Mutate {
 					q = append(q, "mutate=true")
@@ -558,7 +775,15 @@ func (s *ivSession) apply() *ivDivergence {
 					url += "?mutate=true"
 				}
 			}
-			if r := s.http("POST", url, data); r.Status != 200 {
+			r := s.http("POST", url, data)
+			if s.lat.isForeign(o.Roi) {
+				// the specification refuses a write through a region of another block size
+				if r.Status >= 400 && r.Status < 500 {
+					continue
+				}
+				return s.div("write-not-refused", o.V, "POST "+url, fmt.Sprintf("request %d of the behaviour: the region %s has block size %v, the volume %v", i+1, s.roiName(o.Roi), s.bind.RoiBS, s.bind.BS), "4xx", fmt.Sprintf("%d %s", r.Status, r.Bytes()))
+			}
+			if r.Status != 200 {
 				return s.div("write-refused", o.V, "POST "+url, fmt.Sprintf("request %d of the behaviour", i+1), 200, fmt.Sprintf("%d %s", r.Status, r.Bytes()))
 			}
 		}
@@ -595,12 +820,37 @@ var ivPlanes = []struct {
 	c    int // the fixed axis
 }{{"xy", "0_1", 0, 1, 2}, {"xz", "0_2", 0, 2, 1}, {"yz", "1_2", 1, 2, 0}}
 
+// streamPayload decodes the payload of one block of a block stream requested without
+// "compression=uncompressed": the stored value without its format byte and checksum.
+func (s *ivSession) streamPayload(data []byte) ([]byte, error) {
+	var f dvid.CompressionFormat
+	switch s.bind.Comp {
+	case "none":
+		return data, nil
+	case "", "lz4":
+		f = dvid.LZ4
+	case "snappy":
+		f = dvid.Snappy
+	case "gzip":
+		f = dvid.Gzip
+	default:
+		return nil, fmt.Errorf("no decoder for compression %q", s.bind.Comp)
+	}
+	comp, _ := dvid.NewCompression(f, dvid.DefaultCompression)
+	// only the decompressor of the dvid package is used here (property C15 covers it)
+	full := append([]byte{byte(dvid.EncodeSerializationFormat(comp, dvid.NoChecksum))}, data...)
+	out, _, err := dvid.DeserializeData(full, true)
+	return out, err
+}
+
 // verify performs the reads of one version and compares with the specification state.
 func (s *ivSession) verify(v int) *ivDivergence {
 	b := &s.bind
 	fin := &s.beh.Fin
 	u := s.uuids[v-1]
 	base := "/api/node/" + u + "/img/"
+	nroi := len(s.lat.Rois)
+	cmap := func(r int) []int { return fin.CVol[v-1][r] }
 	cmp := func(kind, url string, want, got []byte, off, size [3]int) *ivDivergence {
 		atomic.AddInt64(&s.cnt.reads, 1)
 		atomic.AddInt64(&s.cnt.voxels, int64(len(want)/b.BPV))
@@ -609,14 +859,30 @@ func (s *ivSession) verify(v int) *ivDivergence {
 		}
 		return nil
 	}
-	// --- extents: info and metadata must cover every written voxel
-	hull := fin.Hull[v-1]
-	if hull[0][0] <= hull[1][0] {
-		var wantLo, wantHi [3]int
-		for a := 0; a < 3; a++ {
-			wantLo[a] = (b.Origin[a] + hull[0][a]) * b.BS[a]
-			wantHi[a] = (b.Origin[a]+hull[1][a]+1)*b.BS[a] - 1
+	roiQ := func(r int) string {
+		if r == 0 {
+			return ""
 		}
+		return "?roi=" + s.roiName(r)
+	}
+	// a read through a region of another block size is refused by the specification
+	refused := func(kind, url string, r int, resp node.Resp) (bool, *ivDivergence) {
+		if !s.lat.isForeign(r) {
+			return false, nil
+		}
+		atomic.AddInt64(&s.cnt.reads, 1)
+		if resp.Status >= 400 && resp.Status < 500 {
+			return true, nil
+		}
+		return true, s.div("read-not-refused", v, "GET "+url, fmt.Sprintf("%s: the region %s has block size %v, the volume %v", kind, s.roiName(r), b.RoiBS, b.BS), "4xx", fmt.Sprintf("%d, %d bytes", resp.Status, len(resp.Bytes())))
+	}
+	// --- extents: info and metadata must cover every written voxel (and the extents a client posted)
+	hull := fin.Hull[v-1]
+	if s.hasExt && fin.Ext[v-1][0][0] <= fin.Ext[v-1][1][0] {
+		hull = fin.Ext[v-1] // contains the written hull (ExtentsCover)
+	}
+	if hull[0][0] <= hull[1][0] {
+		wantLo, wantHi := s.cellBoxVoxels(&ivBox{Lo: hull[0], Hi: hull[1]})
 		covers := func(name string, lo, hi []int, url string) *ivDivergence {
 			atomic.AddInt64(&s.cnt.reads, 1)
 			if len(lo) != 3 || len(hi) != 3 {
@@ -674,22 +940,52 @@ func (s *ivSession) verify(v int) *ivDivergence {
 			return d
 		}
 	}
-	// --- one 3-D read of the whole lattice with a margin of one block
-	get3d := func(kind string, off, size [3]int) *ivDivergence {
-		url := base + "raw/0_1_2/" + us(size) + "/" + us(off)
-		r := s.http("GET", url, nil)
-		if r.Status != 200 {
-			return s.div(kind, v, "GET "+url, "status", 200, fmt.Sprintf("%d %s", r.Status, r.Bytes()))
+	// --- a 2-D POST is not part of the API: refused, and (by the reads below) without effect
+	if s.rng.Intn(3) == 0 {
+		pl := ivPlanes[s.rng.Intn(3)]
+		var off [3]int
+		for a := 0; a < 3; a++ {
+			off[a] = b.Origin[a] * b.BS[a]
 		}
-		return cmp(kind, url, b.expectBox(s.lat, fin, v, off, size), r.Bytes(), off, size)
+		url := fmt.Sprintf("%sraw/%s/%d_%d/%s", base, pl.dims, b.BS[pl.a], b.BS[pl.b], us(off))
+		var buf bytes.Buffer
+		png.Encode(&buf, b.sliceImage(99, off, [3]int{b.BS[pl.a], b.BS[pl.b], 1}, off[2]))
+		if r := s.http("POST", url, buf.Bytes()); r.Status < 400 || r.Status >= 500 {
+			return s.div("post-2d-not-refused", v, "POST "+url, "a 2-D slice cannot be posted", "4xx", fmt.Sprintf("%d %s", r.Status, r.Bytes()))
+		}
+		atomic.AddInt64(&s.cnt.reads, 1)
+	}
+	// --- 3-D reads of the whole lattice with a margin of one block, without and through every region
+	get3d := func(kind string, off, size [3]int, r int) *ivDivergence {
+		url := base + "raw/0_1_2/" + us(size) + "/" + us(off) + roiQ(r)
+		resp := s.http("GET", url, nil)
+		if is, d := refused(kind, url, r, resp); is {
+			return d
+		}
+		if resp.Status != 200 {
+			return s.div(kind, v, "GET "+url, "status", 200, fmt.Sprintf("%d %s", resp.Status, resp.Bytes()))
+		}
+		return cmp(kind, url, b.expectBox(s.lat, cmap(r), off, size), resp.Bytes(), off, size)
 	}
 	var foff, fsize [3]int
 	for a := 0; a < 3; a++ {
 		foff[a] = (b.Origin[a] - 1) * b.BS[a]
 		fsize[a] = (s.lat.NB[a] + 2) * b.BS[a]
 	}
-	if d := get3d("read-3d-all", foff, fsize); d != nil {
-		return d
+	for r := 0; r <= nroi; r++ {
+		kind := "read-3d-all"
+		if r > 0 {
+			kind = "read-3d-all-roi"
+		}
+		if d := get3d(kind, foff, fsize, r); d != nil {
+			return d
+		}
+	}
+	pickRoi := func() int {
+		if nroi == 0 || s.rng.Intn(2) == 0 {
+			return 0
+		}
+		return 1 + s.rng.Intn(nroi)
 	}
 	// --- seeded reads per structural class
 	for k := 0; k < s.nreads; k++ {
@@ -699,8 +995,13 @@ func (s *ivSession) verify(v int) *ivDivergence {
 			cl[a] = s.classes[a][s.rng.Intn(len(s.classes[a]))]
 			off[a], size[a] = s.expand(a, cl[a])
 		}
-		s.run.Eval(fmt.Sprintf("xyz|%v", cl))
-		if d := get3d("read-3d", off, size); d != nil {
+		r := pickRoi()
+		tag := ""
+		if r > 0 {
+			tag = "-roi"
+		}
+		s.run.Eval(fmt.Sprintf("xyz%s|%v", tag, cl))
+		if d := get3d("read-3d"+tag, off, size, r); d != nil {
 			d.Detail += fmt.Sprintf("; class %v", cl)
 			return d
 		}
@@ -715,19 +1016,39 @@ func (s *ivSession) verify(v int) *ivDivergence {
 				off[a], size[a] = s.expand(a, cl[a])
 			}
 			size[pl.c] = 1
-			s.run.Eval(fmt.Sprintf("%s|%v", pl.name, cl))
-			url := fmt.Sprintf("%sraw/%s/%d_%d/%s", base, pl.dims, size[pl.a], size[pl.b], us(off))
-			r := s.http("GET", url, nil)
-			if r.Status != 200 {
-				return s.div("read-"+pl.name, v, "GET "+url, "status", 200, fmt.Sprintf("%d %s", r.Status, r.Bytes()))
+			r := pickRoi()
+			tag := ""
+			if r > 0 {
+				tag = "-roi"
 			}
-			pix, w, h, err := decodePNG(r.Bytes(), b.BPV)
+			// "isotropic" equals "raw" when the voxels are isotropic (the default resolution);
+			// an explicit "png" suffix is the default format
+			kw, suffix := "raw", ""
+			if s.rng.Intn(4) == 0 {
+				kw = "isotropic"
+			}
+			if s.rng.Intn(4) == 0 {
+				suffix = "/png"
+			}
+			s.run.Eval(fmt.Sprintf("%s%s|%v", pl.name, tag, cl))
+			url := fmt.Sprintf("%s%s/%s/%d_%d/%s%s%s", base, kw, pl.dims, size[pl.a], size[pl.b], us(off), suffix, roiQ(r))
+			resp := s.http("GET", url, nil)
+			if is, d := refused("read-"+pl.name, url, r, resp); is {
+				if d != nil {
+					return d
+				}
+				continue
+			}
+			if resp.Status != 200 {
+				return s.div("read-"+pl.name+tag, v, "GET "+url, "status", 200, fmt.Sprintf("%d %s", resp.Status, resp.Bytes()))
+			}
+			pix, w, h, err := decodePNG(resp.Bytes(), b.BPV)
 			if err != nil || w != size[pl.a] || h != size[pl.b] {
-				return s.div("read-"+pl.name, v, "GET "+url, fmt.Sprintf("PNG %dx%d err=%v", w, h, err), fmt.Sprintf("%dx%d", size[pl.a], size[pl.b]), nil)
+				return s.div("read-"+pl.name+tag, v, "GET "+url, fmt.Sprintf("PNG %dx%d err=%v", w, h, err), fmt.Sprintf("%dx%d", size[pl.a], size[pl.b]), nil)
 			}
 			// expectBox iterates x fastest, then y, then z: with the fixed axis of size 1 this is
 			// exactly the row-major order of the slice
-			if d := cmp("read-"+pl.name, url, b.expectBox(s.lat, fin, v, off, size), pix, off, size); d != nil {
+			if d := cmp("read-"+pl.name+tag, url, b.expectBox(s.lat, cmap(r), off, size), pix, off, size); d != nil {
 				d.Detail += fmt.Sprintf("; class %v", cl)
 				return d
 			}
@@ -738,7 +1059,7 @@ func (s *ivSession) verify(v int) *ivDivergence {
 	expBlock := func(bx, by, bz int) (data []byte, written bool) {
 		off := [3]int{bx * b.BS[0], by * b.BS[1], bz * b.BS[2]}
 		id := s.lat.bid(bx-b.Origin[0], by-b.Origin[1], bz-b.Origin[2])
-		return b.expectBox(s.lat, fin, v, off, b.BS), id != 0 && fin.Vol[v-1][id-1] != 0
+		return b.expectBox(s.lat, cmap(0), off, b.BS), id != 0 && fin.Stored[v-1][id-1] != 0
 	}
 	// GET blocks: a row along X with margin
 	{
@@ -774,7 +1095,8 @@ func (s *ivSession) verify(v int) *ivDivergence {
 		}
 		s.run.Eval(fmt.Sprintf("blocks|x0=%d|span=%d|y=%d|z=%d", x0-b.Origin[0], span, y-b.Origin[1], z-b.Origin[2]))
 	}
-	checkStream := func(kind, url string, inBox func(c [3]int) bool) *ivDivergence {
+	// block streams: "uncompressed" or the stored payload (default) of every stored block
+	checkStream := func(kind, url string, stored bool, inBox func(c [3]int) bool) *ivDivergence {
 		r := s.http("GET", url, nil)
 		if r.Status != 200 {
 			return s.div(kind, v, "GET "+url, "status", 200, fmt.Sprintf("%d %s", r.Status, r.Bytes()))
@@ -786,6 +1108,11 @@ func (s *ivSession) verify(v int) *ivDivergence {
 		for c, data := range blocks {
 			if !inBox(c) {
 				return s.div(kind, v, "GET "+url, fmt.Sprintf("block %v was not requested", c), nil, nil)
+			}
+			if stored {
+				if data, err = s.streamPayload(data); err != nil {
+					return s.div(kind, v, "GET "+url, fmt.Sprintf("block %v: the stored payload (instance compression %q) cannot be decoded: %v", c, b.Comp, err), nil, nil)
+				}
 			}
 			want, _ := expBlock(c[0], c[1], c[2])
 			off := [3]int{c[0] * b.BS[0], c[1] * b.BS[1], c[2] * b.BS[2]}
@@ -812,6 +1139,12 @@ func (s *ivSession) verify(v int) *ivDivergence {
 		}
 		return nil
 	}
+	streamQ := func() (q string, stored bool) {
+		if s.rng.Intn(2) == 0 {
+			return "compression=uncompressed", false
+		}
+		return "", true
+	}
 	// GET subvolblocks over a block-aligned box inside lattice + margin
 	{
 		var lo, hi [3]int
@@ -825,13 +1158,17 @@ func (s *ivSession) verify(v int) *ivDivergence {
 		}
 		off := [3]int{lo[0] * b.BS[0], lo[1] * b.BS[1], lo[2] * b.BS[2]}
 		size := [3]int{(hi[0] - lo[0] + 1) * b.BS[0], (hi[1] - lo[1] + 1) * b.BS[1], (hi[2] - lo[2] + 1) * b.BS[2]}
-		url := base + "subvolblocks/" + us(size) + "/" + us(off) + "?compression=uncompressed"
-		if d := checkStream("read-subvolblocks", url, func(c [3]int) bool {
+		q, stored := streamQ()
+		url := base + "subvolblocks/" + us(size) + "/" + us(off)
+		if q != "" {
+			url += "?" + q
+		}
+		if d := checkStream("read-subvolblocks", url, stored, func(c [3]int) bool {
 			return c[0] >= lo[0] && c[0] <= hi[0] && c[1] >= lo[1] && c[1] <= hi[1] && c[2] >= lo[2] && c[2] <= hi[2]
 		}); d != nil {
 			return d
 		}
-		s.run.Eval(fmt.Sprintf("subvolblocks|%v|%v", [3]int{lo[0] - b.Origin[0], lo[1] - b.Origin[1], lo[2] - b.Origin[2]}, [3]int{hi[0] - lo[0], hi[1] - lo[1], hi[2] - lo[2]}))
+		s.run.Eval(fmt.Sprintf("subvolblocks|%v|%v|stored=%v", [3]int{lo[0] - b.Origin[0], lo[1] - b.Origin[1], lo[2] - b.Origin[2]}, [3]int{hi[0] - lo[0], hi[1] - lo[1], hi[2] - lo[2]}, stored))
 	}
 	// GET specificblocks for a seeded list of blocks
 	{
@@ -846,11 +1183,24 @@ func (s *ivSession) verify(v int) *ivDivergence {
 			want[c] = true
 			list = append(list, fmt.Sprintf("%d,%d,%d", c[0], c[1], c[2]))
 		}
-		url := base + "specificblocks?compression=uncompressed&blocks=" + strings.Join(list, ",")
-		if d := checkStream("read-specificblocks", url, func(c [3]int) bool { return want[c] }); d != nil {
+		q, stored := streamQ()
+		if q != "" {
+			q += "&"
+		}
+		if s.rng.Intn(6) == 0 {
+			// prefetch: nothing is sent
+			url := base + "specificblocks?" + q + "prefetch=on&blocks=" + strings.Join(list, ",")
+			r := s.http("GET", url, nil)
+			atomic.AddInt64(&s.cnt.reads, 1)
+			if r.Status != 200 || len(r.Bytes()) != 0 {
+				return s.div("read-specificblocks", v, "GET "+url, "a prefetch request sends no data", "200, 0 bytes", fmt.Sprintf("%d, %d bytes", r.Status, len(r.Bytes())))
+			}
+		}
+		url := base + "specificblocks?" + q + "blocks=" + strings.Join(list, ",")
+		if d := checkStream("read-specificblocks", url, stored, func(c [3]int) bool { return want[c] }); d != nil {
 			return d
 		}
-		s.run.Eval(fmt.Sprintf("specificblocks|%d", n))
+		s.run.Eval(fmt.Sprintf("specificblocks|%d|stored=%v", n, stored))
 	}
 	return nil
 }
@@ -868,7 +1218,7 @@ func ivReplay(c *Ctx, run *ev.Run, n *node.Node, part string, lat ivLattice, cla
 			panic(e)
 		}
 	}()
-	s := &ivSession{c: c, run: run, n: n, lat: lat, classes: classes, bind: bind, beh: beh, rng: rand.New(rand.NewSource(seed)), cnt: cnt, part: part, nreads: nreads}
+	s := &ivSession{c: c, run: run, n: n, lat: lat, classes: classes, bind: bind, beh: beh, rng: rand.New(rand.NewSource(seed)), cnt: cnt, part: part, nreads: nreads, seed: seed}
 	s.setup()
 	if d := s.apply(); d != nil {
 		return d
@@ -884,17 +1234,28 @@ func ivReplay(c *Ctx, run *ev.Run, n *node.Node, part string, lat ivLattice, cla
 
 // known defects of imageblk this check can run into (known_findings.json)
 func ivKnownID(d *ivDivergence) string {
-	usesBlocksPost := false
+	usesBlocksPost, usesLoad := false, false
 	for _, o := range d.Hist {
 		if o.Op == "write" && o.API == "blocks" {
 			usesBlocksPost = true
 		}
+		if o.Op == "load" {
+			usesLoad = true
+		}
 	}
 	switch {
+	case d.Kind == "write-not-refused" || d.Kind == "read-not-refused":
+		return "roi-of-other-block-size-not-refused"
+	case usesLoad && d.Kind == "load-failed":
+		return "load-panics-at-negative-xy"
+	case usesLoad && (strings.HasPrefix(d.Kind, "read-") || d.Kind == "server-died") && d.Bind.Origin[2] < 0:
+		return "load-negative-z"
 	case usesBlocksPost && d.Bind.BPV > 1 && d.Kind != "extents":
 		return "post-blocks-ignores-voxel-width"
 	case usesBlocksPost && d.Kind == "extents":
 		return "post-blocks-no-extents"
+	case d.Bind.BG != 0 && d.Bind.BPV > 1 && strings.HasPrefix(d.Kind, "read-"):
+		return "background-of-multi-byte-voxels"
 	case d.Bind.BG != 0 && strings.HasPrefix(d.Kind, "read-") && d.Kind != "read-blocks":
 		return "background-not-applied-to-missing-blocks"
 	}
@@ -928,23 +1289,61 @@ func ivBinding(rng *rand.Rand, i int, lat ivLattice, thorough bool) ivBind {
 		}
 	}
 	b := ivBind{Type: t.Name, BPV: t.BPV, BS: bs, Origin: org, Seed: rng.Uint64()}
-	if t.BPV == 1 && rng.Intn(3) == 0 {
+	if rng.Intn(3) == 0 {
 		b.BG = byte(1 + rng.Intn(255))
+	}
+	// storage settings of the instance: mostly the defaults (lz4, default checksum)
+	switch rng.Intn(8) {
+	case 0:
+		b.Comp = "none"
+	case 1:
+		b.Comp = "snappy"
+	case 2:
+		b.Comp = "gzip"
+	case 3:
+		b.Comp = "lz4"
+	}
+	switch rng.Intn(6) {
+	case 0:
+		b.Csum = "crc32"
+	case 1:
+		b.Csum = "none"
+	}
+	b.ExtCfg = rng.Intn(8) == 0
+	b.Spans = rng.Intn(3)
+	// the block size of a region "of another block size": differs on at least one axis
+	b.RoiBS = bs
+	switch rng.Intn(3) {
+	case 0:
+		b.RoiBS = [3]int{2 * bs[0], 2 * bs[1], 2 * bs[2]}
+	case 1:
+		b.RoiBS[rng.Intn(3)] /= 2
+	default:
+		b.RoiBS[rng.Intn(3)] += 1 + rng.Intn(5)
 	}
 	return b
 }
 
 // ivGenCases generates seeded request sequences for part B.
-func ivGenCases(rng *rand.Rand, lat ivLattice, n, maxVer, maxWrites int) [][]ivOp {
+func ivGenCases(rng *rand.Rand, lat ivLattice, n int, bd ivBounds) [][]ivOp {
 	var out [][]ivOp
 	for len(out) < n {
 		nver := 1
 		open := []bool{true}
-		nw := 0
+		nw, nl, nr, ne, margin := 0, 0, 0, 0, 0
 		var ops []ivOp
-		steps := 3 + rng.Intn(maxWrites+maxVer-3)
+		steps := 3 + rng.Intn(bd.MaxWrites+bd.MaxVer-3)
+		openVer := func() int {
+			var ov []int
+			for v, o := range open {
+				if o {
+					ov = append(ov, v+1)
+				}
+			}
+			return ov[rng.Intn(len(ov))]
+		}
 		for len(ops) < steps {
-			if nver < maxVer && rng.Intn(4) == 0 {
+			if nver < bd.MaxVer && rng.Intn(4) == 0 {
 				p := 1 + rng.Intn(nver)
 				ops = append(ops, ivOp{Op: "newver", V: p})
 				open[p-1] = false
@@ -952,16 +1351,46 @@ func ivGenCases(rng *rand.Rand, lat ivLattice, n, maxVer, maxWrites int) [][]ivO
 				nver++
 				continue
 			}
-			if nw >= maxWrites {
+			switch k := rng.Intn(12); {
+			case k == 0 && nr < bd.MaxRoiOps && len(lat.Rois) > 0:
+				// change a region of the volume's block size
+				r := 1 + rng.Intn(len(lat.Rois))
+				if lat.isForeign(r) {
+					continue
+				}
+				ops = append(ops, ivOp{Op: "setroi", V: openVer(), Roi: r, Blocks: append([]int{}, lat.Alts[rng.Intn(len(lat.Alts))]...)})
+				nr++
+				continue
+			case k == 1 && ne < bd.MaxExtOps:
+				// extents posted by a client contain what was posted before (the specification's
+				// Enabled also requires them to contain everything written so far: the whole lattice
+				// with a growing margin always does)
+				margin += rng.Intn(3)
+				bx := &ivBox{}
+				for a := 0; a < 3; a++ {
+					bx.Lo[a], bx.Hi[a] = -margin, 2*lat.NB[a]-1+margin
+				}
+				ops = append(ops, ivOp{Op: "setext", V: openVer(), Box: bx})
+				ne++
+				continue
+			case k == 2 && nl < bd.MaxLoads && nw < bd.MaxWrites:
+				o := ivOp{Op: "load", V: openVer(), CBox: &ivBox{}}
+				for a := 0; a < 3; a++ {
+					p, q := rng.Intn(2*lat.NB[a]), rng.Intn(2*lat.NB[a])
+					if p > q {
+						p, q = q, p
+					}
+					o.CBox.Lo[a], o.CBox.Hi[a] = p, q
+				}
+				ops = append(ops, o)
+				nw++
+				nl++
+				continue
+			}
+			if nw >= bd.MaxWrites {
 				break
 			}
-			var ov []int
-			for v, o := range open {
-				if o {
-					ov = append(ov, v+1)
-				}
-			}
-			o := ivOp{Op: "write", V: ov[rng.Intn(len(ov))], API: "raw", Mutate: rng.Intn(2) == 0, Box: &ivBox{}}
+			o := ivOp{Op: "write", V: openVer(), API: "raw", Mutate: rng.Intn(2) == 0, Box: &ivBox{}}
 			for a := 0; a < 3; a++ {
 				p, q := rng.Intn(lat.NB[a]), rng.Intn(lat.NB[a])
 				if p > q {
@@ -987,7 +1416,45 @@ func ivGenCases(rng *rand.Rand, lat ivLattice, n, maxVer, maxWrites int) [][]ivO
 	return out
 }
 
+// ivReplayFile re-runs the behaviour of a replay file (./check C17 --replay <path>): the
+// requests and the expected final state of the specification are taken from the file.
+func ivReplayFile(c *Ctx) int {
+	raw, err := os.ReadFile(c.Replay)
+	must(err, "read replay file")
+	var d ivDivergence
+	must(json.Unmarshal(raw, &d), "parse replay file")
+	if d.Final == nil || len(d.Hist) == 0 {
+		infra("%s holds no behaviour of parts A/B (part %q)", c.Replay, d.Part)
+	}
+	// AxisClasses of the specification: all (first cell, last cell) pairs incl. the margin
+	var classes [3][][2]int
+	for a := 0; a < 3; a++ {
+		for p := -2; p <= 2*d.Lattice.NB[a]+1; p++ {
+			for q := p; q <= 2*d.Lattice.NB[a]+1; q++ {
+				classes[a] = append(classes[a], [2]int{p, q})
+			}
+		}
+	}
+	run := ev.NewRun("C17", c.Tier, "model_checking")
+	var cnt ivCounters
+	if d.NReads == 0 {
+		d.NReads = 2
+	}
+	n := c.StartNode(node.Config{NoLog: true})
+	got := ivReplay(c, run, n, d.Part, d.Lattice, classes, &ivBeh{Hist: d.Hist, Fin: *d.Final}, d.Bind, d.ReadSeed, d.NReads, &cnt)
+	c.DropNode(n)
+	if got == nil {
+		fmt.Printf("C17 replay %s: the behaviour conforms (%d reads compared)\n", c.Replay, cnt.reads)
+		return 0
+	}
+	fmt.Printf("C17 replay %s: diverges again: %s %s: %s\n", c.Replay, got.Kind, got.Request, got.Detail)
+	return 1
+}
+
 func checkC17(c *Ctx) int {
+	if c.Replay != "" {
+		return ivReplayFile(c)
+	}
 	run := ev.NewRun("C17", c.Tier, "model_checking")
 	t0 := time.Now()
 	rng := rand.New(rand.NewSource(c.Seed))
@@ -996,10 +1463,9 @@ func checkC17(c *Ctx) int {
 	var cfgs []string
 
 	// ---- part B (prepared first, evaluated by TLC concurrently with part A): seeded longer
-	// sequences on a larger lattice
+	// sequences on a larger lattice, all request kinds
 	latB := ivLattice{NB: [3]int{3, 2, 2}}
-	for len(latB.Rois) < 2 {
-		k := 1 + rng.Intn(4)
+	seededSet := func(k int) []int {
 		seen := map[int]bool{}
 		var ids []int
 		for len(ids) < k {
@@ -1009,33 +1475,91 @@ func checkC17(c *Ctx) int {
 				ids = append(ids, id)
 			}
 		}
-		// sorted by id = sorted by (z, y, x): the order the roi endpoint expects of spans
 		sort.Ints(ids)
-		latB.Rois = append(latB.Rois, ids)
+		return ids
 	}
-	casesB := ivGenCases(rng, latB, c.pick(250, 1600), 4, 6)
+	for len(latB.Rois) < 2 {
+		latB.Rois = append(latB.Rois, seededSet(1+rng.Intn(4)))
+	}
+	// a third region with spans along X (multi-block spans) and a fourth of another block size
+	latB.Rois = append(latB.Rois, []int{1, 2, 3, 8, 9, 11, 12}, seededSet(3))
+	latB.Foreign = []int{4}
+	latB.Alts = [][]int{{}, seededSet(2), {4, 5, 6, 7}, seededSet(5)}
+	bdB := ivBounds{MaxVer: 4, MaxWrites: 6, MaxRoiOps: 3, MaxExtOps: 2, MaxLoads: 2}
+	// directed sequences first (replayed before everything else), then the seeded ones
+	directedB := [][]ivOp{
+		// a sibling branch writes the whole lattice; then, in another branch without data of its
+		// own, a file load inside that box followed by a small aligned write: the advertised
+		// extents of that branch must cover the load
+		{{Op: "newver", V: 1}, {Op: "newver", V: 2},
+			{Op: "write", V: 3, API: "raw", Box: &ivBox{Lo: [3]int{0, 0, 0}, Hi: [3]int{2, 1, 1}}},
+			{Op: "newver", V: 2},
+			{Op: "load", V: 4, CBox: &ivBox{Lo: [3]int{1, 0, 1}, Hi: [3]int{3, 2, 3}}},
+			{Op: "write", V: 4, API: "raw", Box: &ivBox{Lo: [3]int{2, 0, 0}, Hi: [3]int{2, 0, 1}}}},
+		// a region changed in a child version, used there by a write and by reads, then deleted
+		{{Op: "write", V: 1, API: "raw", Box: &ivBox{Lo: [3]int{0, 0, 0}, Hi: [3]int{2, 1, 1}}},
+			{Op: "newver", V: 1},
+			{Op: "setroi", V: 2, Roi: 1, Blocks: []int{4, 5, 6, 7}},
+			{Op: "write", V: 2, API: "raw", Mutate: true, Roi: 1, Box: &ivBox{Lo: [3]int{0, 0, 0}, Hi: [3]int{2, 1, 1}}},
+			{Op: "newver", V: 2},
+			{Op: "setroi", V: 3, Roi: 1, Blocks: []int{}}},
+	}
+	casesB := append(directedB, ivGenCases(rng, latB, c.pick(220, 1500), bdB)...)
 	var behsB []*ivBeh
 	var rB *tlc.Result
 	doneB := make(chan interface{}, 1)
 	go func() {
 		defer func() { doneB <- recover() }()
-		behsB, rB = ivEvalCases(c, latB, 4, 6, casesB)
+		behsB, rB = ivEvalCases(c, latB, bdB, casesB)
 	}()
 
-	// ---- part A: exhaustive exploration
-	latA := ivLattice{NB: [3]int{2, 2, 1}, Rois: [][]int{{1}, {2, 3}}}
-	maxVerA := c.pick(2, 3)
-	behsA, classesA, rA := ivExplore(c, latA, maxVerA, 2)
-	states += rA.Distinct
-	trans += rA.Generated
-	cfgs = append(cfgs, fmt.Sprintf("ImageVol_mc lattice %v rois %v MaxVersions=%d MaxWrites=2: %d states, %d maximal behaviours (TLC %.0fs)", latA.NB, latA.Rois, maxVerA, rA.Distinct, len(behsA), rA.WallS))
+	// ---- part A: exhaustive exploration, three configurations side by side
+	type partA struct {
+		name    string
+		lat     ivLattice
+		bd      ivBounds
+		behs    []*ivBeh
+		classes [3][][2]int
+		r       *tlc.Result
+		budget  int
+	}
+	partsA := []*partA{
+		{name: "A1", lat: ivLattice{NB: [3]int{2, 2, 1}, Rois: [][]int{{1}, {2, 3}}, Alts: [][]int{{}}},
+			bd: ivBounds{MaxVer: c.pick(2, 3), MaxWrites: 2}, budget: c.pick(1100, 1 << 30)},
+		{name: "A2", lat: ivLattice{NB: [3]int{2, 1, 1}, Rois: [][]int{{1}, {2}, {1, 2}}, Alts: [][]int{{2}, {}}, Foreign: []int{3}},
+			bd: ivBounds{MaxVer: 2, MaxWrites: 1, MaxRoiOps: 1, MaxExtOps: 1}, budget: c.pick(500, 1 << 30)},
+		{name: "A3", lat: ivLattice{NB: [3]int{2, 1, 1}, Rois: [][]int{{2}}, Alts: [][]int{{}}},
+			bd: ivBounds{MaxVer: 2, MaxWrites: 2, MaxLoads: 1}, budget: c.pick(350, 1 << 30)},
+		{name: "A4", lat: ivLattice{NB: [3]int{1, 1, 2}, Rois: [][]int{{2}}, Alts: [][]int{{}}},
+			bd: ivBounds{MaxVer: 2, MaxWrites: 2, MaxLoads: 1}, budget: c.pick(350, 1 << 30)},
+	}
+	doneA := make(chan interface{}, len(partsA))
+	for _, p := range partsA {
+		go func(p *partA) {
+			defer func() { doneA <- recover() }()
+			p.behs, p.classes, p.r = ivExplore(c, p.lat, p.bd)
+		}(p)
+	}
+	for range partsA {
+		if e := <-doneA; e != nil {
+			panic(e)
+		}
+	}
+	for _, p := range partsA {
+		states += p.r.Distinct
+		trans += p.r.Generated
+		cfgs = append(cfgs, fmt.Sprintf("ImageVol_mc %s lattice %v rois %v (of another block size: %v) alternatives %v bounds %+v: %d states, %d maximal behaviours (TLC %.0fs)",
+			p.name, p.lat.NB, p.lat.Rois, p.lat.Foreign, p.lat.Alts, p.bd, p.r.Distinct, len(p.behs), p.r.WallS))
+	}
 	if e := <-doneB; e != nil {
 		panic(e)
 	}
 	states += rB.Distinct
 	trans += rB.Generated
 	classesB := ivClasses(rB)
-	cfgs = append(cfgs, fmt.Sprintf("ImageVol_cases lattice %v rois %v: %d seeded request sequences (3-9 requests, <= 4 versions) evaluated and claim-checked by TLC (%.0fs)", latB.NB, latB.Rois, len(casesB), rB.WallS))
+	cfgs = append(cfgs, fmt.Sprintf("ImageVol_cases lattice %v rois %v (of another block size: %v) alternatives %v: %d seeded request sequences (3-9 requests, <= 4 versions, <= 2 file loads, <= 3 region changes, <= 2 posted extents) evaluated and claim-checked by TLC (%.0fs)",
+		latB.NB, latB.Rois, latB.Foreign, latB.Alts, len(casesB), rB.WallS))
+	tTLC := since(t0)
 
 	// ---- select what is replayed
 	type job struct {
@@ -1052,14 +1576,21 @@ func checkC17(c *Ctx) int {
 		jobs = append(jobs, job{"B", latB, classesB, b, ivBinding(rng, k+3, latB, c.thorough()), rng.Int63(), 2})
 	}
 	// part A in seeded order: what the time budget cuts off is a seeded remainder
-	budgetA := c.pick(2000, len(behsA))
-	permA := rng.Perm(len(behsA))
-	if len(permA) > budgetA {
-		permA = permA[:budgetA]
+	nEmitted := len(behsB)
+	for _, p := range partsA {
+		nEmitted += len(p.behs)
+		perm := rng.Perm(len(p.behs))
+		if len(perm) > p.budget {
+			perm = perm[:p.budget]
+		}
+		for k, i := range perm {
+			jobs = append(jobs, job{p.name, p.lat, p.classes, p.behs[i], ivBinding(rng, k, p.lat, c.thorough()), rng.Int63(), c.pick(2, 1)})
+		}
 	}
-	for k, i := range permA {
-		jobs = append(jobs, job{"A", latA, classesA, behsA[i], ivBinding(rng, k, latA, c.thorough()), rng.Int63(), c.pick(2, 1)})
-	}
+	// interleave the parts so that a time budget cuts all of them proportionally (the directed
+	// sequences of part B stay in front)
+	rest := jobs[len(directedB):]
+	rng.Shuffle(len(rest), func(i, j int) { rest[i], rest[j] = rest[j], rest[i] })
 	// ---- replay
 	workers := 16
 	nodes := make([]*node.Node, workers)
@@ -1067,7 +1598,11 @@ func checkC17(c *Ctx) int {
 	var mu sync.Mutex
 	var replayed, sampled int64
 	kinds := map[string]int{}
-	deadline := t0.Add(time.Duration(c.pick(48, 500)) * time.Second)
+	perPart := map[string]int{}
+	deadline := t0.Add(time.Duration(c.pick(47, 520)) * time.Second)
+	if min := time.Now().Add(time.Duration(c.pick(20, 240)) * time.Second); deadline.Before(min) {
+		deadline = min // TLC was slow (loaded machine): still replay for a while
+	}
 	var skipped, strayDeaths int64
 	parallel(len(jobs), workers, func(w, i int) {
 		if time.Now().After(deadline) {
@@ -1085,8 +1620,13 @@ func checkC17(c *Ctx) int {
 		used[w]++
 		d := ivReplay(c, run, nodes[w], j.part, j.lat, j.classes, j.beh, j.bind, j.seed, j.nreads, &cnt)
 		atomic.AddInt64(&replayed, 1)
-		if k := atomic.AddInt64(&sampled, 1); k <= 2 || (j.part == "A" && k%2000 == 0) {
-			run.Sample(map[string]interface{}{"part": j.part, "lattice_blocks": j.lat.NB, "rois": j.lat.Rois, "binding": j.bind, "requests": j.beh.Hist, "expected_block_map_per_version": j.beh.Fin.Vol})
+		mu.Lock()
+		perPart[j.part]++
+		np := perPart[j.part]
+		mu.Unlock()
+		if k := atomic.AddInt64(&sampled, 1); np == 1 || k%3000 == 0 {
+			run.Sample(map[string]interface{}{"part": j.part, "lattice_blocks": j.lat.NB, "rois": j.lat.Rois, "binding": j.bind, "requests": j.beh.Hist,
+				"expected_aligned_write_per_version_and_block": j.beh.Fin.Vol, "expected_cell_map_of_last_version_per_region": j.beh.Fin.CVol[len(j.beh.Fin.CVol)-1], "expected_stored_blocks": j.beh.Fin.Stored, "expected_written_hull_cells": j.beh.Fin.Hull})
 		}
 		if d == nil {
 			return
@@ -1107,10 +1647,14 @@ func checkC17(c *Ctx) int {
 		d = d2
 		mu.Lock()
 		kinds[d.Kind]++
+		nk := kinds[d.Kind]
 		mu.Unlock()
 		if id := ivKnownID(d); id != "" && run.KnownActive(id) {
 			run.ReportKnown(id)
 			return
+		}
+		if nk > 12 {
+			return // enough replay files of this kind; the verdict is a violation already
 		}
 		run.Violation("c17", d)
 	})
@@ -1126,6 +1670,9 @@ func checkC17(c *Ctx) int {
 	run.Set("slice_stack_sequences_replayed", nSliceSeqs)
 	run.Set("slice_stack_voxels_compared", nSliceVoxels)
 
+	if replayed == 0 {
+		infra("no behaviour was replayed within the time budget (TLC took %.0fs)", tTLC)
+	}
 	if strayDeaths > 0 && run.Violations() == 0 {
 		infra("the server process died %d times during the run without a reproducible cause", strayDeaths)
 	}
@@ -1133,26 +1680,28 @@ func checkC17(c *Ctx) int {
 	run.Set("states", states)
 	run.Set("transitions", trans)
 	run.Set("traces_validated_against_impl", replayed)
+	run.Set("replayed_per_part", perPart)
 	run.Set("evaluations", cnt.reads+nC)
 	run.Set("voxels_compared", cnt.voxels)
 	run.Set("http_requests", cnt.requests)
-	run.Set("behaviours_emitted_by_tlc", len(behsA)+len(behsB))
+	run.Set("behaviours_emitted_by_tlc", nEmitted)
 	run.Set("behaviours_not_replayed_time_budget", skipped)
+	run.Set("tlc_wall_s", tTLC)
 	run.Set("transfer_sweep_geometries", nC)
 	run.Set("transfer_sweep_distinct_classes", distinctC)
 	run.Set("configurations", cfgs)
 	run.Set("divergence_kinds", kinds)
 	run.Set("exhaustive", false)
-	run.Set("rule", "part A: TLC (ImageVol_mc) explores every sequence of <= 2 block-aligned writes (POST raw/0_1_2 ingest|mutate x no ROI|ROI of 1 block|ROI of 2 diagonal blocks, POST blocks ingest|mutate over every X row) and version steps (commit+newversion / branch) on a 2x2x1 block lattice, checks StateOK/StepClaims, and prints every maximal behaviour with the expected block map, extents and written hull of every version; the harness replays a seeded selection (quick) or all within the time budget (thorough) on a fresh repo each, binding the lattice to a seeded voxel type (all six), block size (anisotropic 8x16x4, 12x6x10, 6x4x8, 16^3, thorough also 32^3), block origin (negative, straddling zero, zero, positive) and background (uint8blk only, 1/3 non-zero), payload voxels = fixed hash f(write id, x, y, z). part B: seeded sequences of 3-9 requests on a 3x2x2 lattice with up to 4 versions and seeded ROIs, claim-checked and evaluated by TLC (ImageVol_cases). Reads per version: info+metadata extents cover the written hull; one 3-D read of lattice+1 block margin; per structural class (TLC: AxisClasses = first/last half-block cell per axis incl. a one-block margin) seeded concrete 3-D boxes and XY/XZ/YZ PNG slices; GET blocks rows, subvolblocks boxes, specificblocks lists. Expected voxel = f(spec write id of its block) or background. A divergence is re-run on a fresh node before it is reported. distinct_nontrivial = distinct (endpoint, structural read class) pairs read + distinct transfer classes; part C sweeps Voxels.ReadBlock/WriteBlock directly (all 4 shapes x offsets/sizes around a block, anisotropic block) against the same f.")
+	run.Set("rule", "part A: TLC (ImageVol_mc) explores every request sequence within the bounds of three configurations - A1: <= 2 block-aligned writes (POST raw/0_1_2 ingest|mutate x no ROI|ROI of 1 block|ROI of 2 diagonal blocks, POST blocks ingest|mutate over every X row) and version steps (commit+newversion / branch) on a 2x2x1 block lattice; A2: one write, one change of a region of interest (POST roi / DELETE roi at any open version: regions are versioned) and one POST extents in every order on 2x1x1 blocks, with a third region whose block size differs from the volume's (requests naming it are refused); A3/A4: one file load (LoadImages over every box of half-block cells = unaligned slab of XY PNG images merged into existing blocks) and one aligned write in both orders on 2x1x1 and on 1x1x2 blocks (two block layers in Z) - checks StateOK/StepClaims, and prints every maximal behaviour with, per version, the expected cell map as read without and through every region, the stored blocks, the advertised extents and the hull of the written cells; the harness replays a seeded selection (quick) or all within the time budget (thorough) on a fresh repo each, binding the lattice to a seeded voxel type (all six), block size (anisotropic 8x16x4, 12x6x10, 6x4x8, 16^3, thorough also 32^3), block origin (negative, straddling zero, zero, positive), Background (1/3 non-zero, all voxel types), instance Compression (default lz4 | none | snappy | gzip | lz4) and Checksum (default | crc32 | none), MinPoint/MaxPoint at creation (1/8), ROI span encoding (one span per block | maximal multi-block spans | overlapping spans); payload voxels = fixed hash f(write id, x, y, z). part B: two directed and seeded sequences of 3-9 requests of all kinds on a 3x2x2 lattice with up to 4 versions, 4 regions (one of another block size) and seeded alternatives, claim-checked and evaluated by TLC (ImageVol_cases). Reads per version: info+metadata extents cover the written hull (and posted extents); a refused 2-D POST; 3-D reads of lattice+1 block margin without and through every region (?roi=); per structural class (TLC: AxisClasses = first/last half-block cell per axis incl. a one-block margin) seeded concrete 3-D boxes and XY/XZ/YZ PNG slices (raw | isotropic, default | /png), each with a seeded region or none; GET blocks rows, subvolblocks boxes, specificblocks lists as uncompressed or stored-payload streams (decoded with the instance's compression), prefetch. Expected voxel = f(spec write id of its cell) or the background value of the voxel type. A divergence is re-run on a fresh node before it is reported. distinct_nontrivial = distinct (endpoint, structural read class) pairs read + distinct transfer classes; part C sweeps Voxels.ReadBlock/WriteBlock directly (all 4 shapes x offsets/sizes around a block, anisotropic block) against the same f.")
 	run.Assume = []string{
-		"block content is determined by the last write of the block (writes are block aligned, as the API requires)",
-		"a non-zero Background is only used with uint8blk (imageblk applies it only to 1-byte voxels)",
-		"2-D slices are read as PNG (lossless for all six voxel types); jpeg and isotropic reads are not lossless and not checked",
-		"the ROI instance has the same block size as the image instance",
-		"extents are only required to cover the written voxels (property), not to be tight",
+		"block content is determined by the last aligned write of the block and the later file loads over its half-block cells (HTTP writes are block aligned, as the API requires)",
+		"the background value of a multi-byte voxel type is the Background integer in every element of the voxel (uint16/32/64 little endian, float32 as a float, rgba8 in every channel)",
+		"2-D slices are read as PNG (lossless for all six voxel types); jpeg reads, isotropic reads of anisotropic resolutions, tiff/bmp suffixes and the attenuation option are not lossless or not decodable here and not checked; jpeg-compressed instances are lossy and not used",
+		"a region of interest of another block size is expected to be refused (it cannot restrict the volume block by block)",
+		"a file load covers at most two block layers in Z (the loader re-reads existing blocks only for the first and the last layer, as its comment says)",
+		"a client posts extents that contain the extents already advertised; extents are only required to cover the written voxels and the posted extents, not to be tight",
 	}
-	fmt.Printf("C17: TLC %d states; replayed %d behaviours (%d skipped by time budget), %d reads / %d voxels compared, %d transfer geometries in %.1fs; violations=%d\n",
-		states, replayed, skipped, cnt.reads, cnt.voxels, nC, since(t0), run.Violations())
+	fmt.Printf("C17: TLC %d states (%.0fs); replayed %d behaviours %v (%d skipped by time budget), %d reads / %d voxels compared, %d transfer geometries in %.1fs; violations=%d\n",
+		states, tTLC, replayed, perPart, skipped, cnt.reads, cnt.voxels, nC, since(t0), run.Violations())
 	return run.Finish()
 }
-
